@@ -520,7 +520,109 @@ def inline_unknown_helpers(mod: 'Module', pinned: dict) -> bool:
     if changed:
         ast.fix_missing_locations(mod.tree)
         set_parents(mod.tree)
+    for _ in range(6):
+        if not _sink_unknown_helpers(mod, pinned):
+            break
+        changed = True
+        ast.fix_missing_locations(mod.tree)
+        set_parents(mod.tree)
+    if changed:
+        ast.fix_missing_locations(mod.tree)
+        set_parents(mod.tree)
     return changed
+
+
+def _sink_unknown_helpers(mod: 'Module', pinned: dict) -> bool:
+    """Undo a *hoist closure to method / module function* refactoring: a function the pinned tree does not know, that could
+    not be spliced into its callers (handed around as a value, recursive, several statements in expression position) and that
+    is referenced from inside one single function only, becomes a nested function of that function again (a method called
+    through ``self`` closes over the caller's ``self``).  One helper per call; returns whether something moved."""
+    prefix = mod.name + ':'
+    tree = mod.tree
+    every = [n for n in ast.walk(tree) if isinstance(n, FUNC)]
+
+    def qual_of(fn: ast.AST) -> typing.Optional[str]:
+        parts = [fn.name]
+        cur = parent(fn)
+        while cur is not None and not isinstance(cur, ast.Module):
+            if isinstance(cur, FUNC):
+                return None  # nested already
+            if isinstance(cur, ast.ClassDef):
+                parts.append(cur.name)
+            cur = parent(cur)
+        return '.'.join(reversed(parts))
+
+    for f in every:
+        q = qual_of(f)
+        if q is None or prefix + q in pinned or f.name.startswith('__'):
+            continue
+        owner = parent(f)
+        kind = _helper_kind(f, owner)
+        if kind == 'class' and f.args.args and not any(isinstance(x, ast.Name) and x.id == f.args.args[0].arg for st in f.body for x in ast.walk(st)):
+            kind = 'unbound'  # a classmethod that never looks at its class
+        if kind not in ('plain', 'static', 'method', 'unbound'):
+            continue
+        name = f.name
+        if sum(1 for n in every if n.name == name) != 1:
+            continue
+        inside = {id(x) for x in ast.walk(f)}
+        refs = []
+        ok = True
+        for x in ast.walk(tree):
+            if id(x) in inside:
+                continue
+            if isinstance(x, ast.Attribute) and x.attr == name:
+                recv = x.value.id if isinstance(x.value, ast.Name) else None
+                if kind == 'plain' or not isinstance(x.ctx, ast.Load) or recv is None or (kind == 'method' and recv != 'self') or (kind in ('static', 'unbound') and recv not in ('self', 'cls', owner.name)):
+                    ok = False
+                refs.append(x)
+            elif isinstance(x, ast.Name) and x.id == name:
+                if kind != 'plain' or not isinstance(x.ctx, ast.Load):
+                    ok = False
+                refs.append(x)
+            elif isinstance(x, ast.arg) and x.arg == name:
+                ok = False
+            elif isinstance(x, ast.Constant) and x.value == name:
+                ok = False  # getattr(.., 'name') and the like
+        if not ok or not refs:
+            continue
+        hosts = set()
+        for r in refs:
+            cur, top = parent(r), None
+            while cur is not None:
+                if isinstance(cur, FUNC):
+                    top = cur
+                cur = parent(cur)
+            hosts.add(id(top) if top is not None else None)
+        if len(hosts) != 1 or None in hosts:
+            continue
+        host = next(n for n in every if id(n) in hosts)
+        if host is f or (kind == 'method' and not (host.args.args and host.args.args[0].arg == 'self')):
+            continue
+        if kind == 'method' and any(isinstance(x, ast.Name) and x.id == 'self' and isinstance(x.ctx, ast.Store) for x in ast.walk(f)):
+            continue
+        if name in _fn_params(host) or any(isinstance(x, ast.Name) and x.id == name for x in ast.walk(host)):
+            continue
+        # move
+        seq = owner.body
+        seq[:] = [x for x in seq if x is not f] or [ast.Pass()]
+        f.decorator_list = []
+        if kind in ('method', 'unbound'):
+            f.args.args = f.args.args[1:]
+        for r in refs:
+            par = parent(r)
+            new = ast.copy_location(ast.Name(id=name, ctx=ast.Load()), r)
+            for fld, val in ast.iter_fields(par):
+                if val is r:
+                    setattr(par, fld, new)
+                elif isinstance(val, list):
+                    for j, y in enumerate(val):
+                        if y is r:
+                            val[j] = new
+        at = 1 if host.body and isinstance(host.body[0], ast.Expr) and isinstance(host.body[0].value, ast.Constant) and isinstance(host.body[0].value.value, str) else 0
+        host.body.insert(at, f)
+        return True
+    return False
 
 
 def _unfold_helper_comprehensions(tree: ast.AST, helpers: set) -> bool:
@@ -621,15 +723,26 @@ def inline_helpers(tree: ast.AST, defs: dict, select: typing.Callable[[str, ast.
         name = node.name
         scope = owner
         cls_name = owner.name if isinstance(owner, ast.ClassDef) else None
-        if isinstance(owner, ast.ClassDef) and sum(1 for x in ast.walk(tree) if isinstance(x, FUNC) and x.name == name) == 1:
-            scope = tree  # a uniquely named (new, private) method: subclasses in this module call it through self as well
+        unique = True
+        if isinstance(owner, ast.ClassDef):
+            unique = sum(1 for x in ast.walk(tree) if isinstance(x, FUNC) and x.name == name) == 1
+            scope = tree  # a uniquely named (new, private) method: subclasses in this module call it through self as well;
+            # any other one: through self/cls inside its class, through the class name anywhere
+        in_owner = {id(x) for x in ast.walk(owner)}
+
+        def reaches(x: ast.AST) -> bool:
+            """does the attribute ``<recv>.name`` denote this helper?"""
+            if unique or not isinstance(owner, ast.ClassDef):
+                return True
+            recv = x.value.id if isinstance(x.value, ast.Name) else (dotted(x.value) or '').split('.')[-1]
+            return recv == cls_name if id(x) not in in_owner else True
 
         def is_call(c: ast.AST) -> bool:
             if not isinstance(c, ast.Call) or any(isinstance(a, ast.Starred) for a in c.args) or any(k.arg is None for k in c.keywords):
                 return False
             f = c.func
             if isinstance(owner, ast.ClassDef):
-                return isinstance(f, ast.Attribute) and f.attr == name and ((isinstance(f.value, ast.Name) and f.value.id in ('self', 'cls')) or (dotted(f.value) or '').split('.')[-1] == cls_name)
+                return isinstance(f, ast.Attribute) and f.attr == name and reaches(f) and ((isinstance(f.value, ast.Name) and f.value.id in ('self', 'cls')) or (dotted(f.value) or '').split('.')[-1] == cls_name)
             return isinstance(f, ast.Name) and f.id == name
 
         inside = {id(x) for x in ast.walk(node)}
@@ -637,7 +750,7 @@ def inline_helpers(tree: ast.AST, defs: dict, select: typing.Callable[[str, ast.
             continue  # recursive (or self-referencing): stays a function
         sites = [c for c in ast.walk(scope) if is_call(c) and id(c) not in inside]
         funcs = {id(c.func) for c in sites}
-        other_refs = [x for x in ast.walk(scope) if ((isinstance(x, ast.Attribute) and x.attr == name) or (isinstance(x, ast.Name) and x.id == name)) and id(x) not in funcs and id(x) not in inside]
+        other_refs = [x for x in ast.walk(scope) if ((isinstance(x, ast.Attribute) and x.attr == name and reaches(x)) or (isinstance(x, ast.Name) and x.id == name and (unique or not isinstance(owner, ast.ClassDef)))) and id(x) not in funcs and id(x) not in inside]
         if other_refs and not tail_mode and kind in ('plain', 'static', 'method') and len(body) == 1 and isinstance(body[0], ast.Return) and body[0].value is not None and all(isinstance(x.ctx, ast.Load) and ((kind == 'plain' and isinstance(x, ast.Name)) or (kind == 'static' and isinstance(x, ast.Attribute) and isinstance(x.value, ast.Name) and x.value.id in ('self', 'cls', cls_name)) or (kind == 'method' and isinstance(x, ast.Attribute) and isinstance(x.value, ast.Name) and x.value.id == 'self' and params[0] == 'self')) for x in other_refs) and not node.args.defaults:
             # a one-expression function handed around as a value is the lambda of that expression (a bound method
             # ``self.h`` is the lambda over the remaining parameters, closing over the very same ``self``)
